@@ -314,7 +314,13 @@ LOOP:
 		}
 		r.hw = hw
 		segments = r.cl.Segments()
-		hwIdx, hwPos, err := getHWPos(segments, r.hw)
+		// Assign to the function's err (do not shadow it), otherwise a failed
+		// lookup ends the read with a nil error and no data.
+		var (
+			hwIdx int
+			hwPos int64
+		)
+		hwIdx, hwPos, err = getHWPos(segments, r.hw)
 		if err != nil {
 			break
 		}
